@@ -1670,3 +1670,15 @@ mod test {
         assert_eq!(ctx.get_op(root).unwrap(), &Op::Input(Var::X));
     }
 }
+
+#[cfg(fidget_verif)]
+impl Node {
+    /// Verification hook: builds a node handle from an arena index
+    pub fn verif_new(i: usize) -> Self {
+        Node(i)
+    }
+    /// Verification hook: returns the arena index of this handle
+    pub fn verif_index(&self) -> usize {
+        self.0
+    }
+}
